@@ -89,6 +89,24 @@ CHECKS = {
          'previous snapshot, and checks that derived models / late fields carry exactly the requested constraints.',
     note='Hash-seed independence of field order is a process-level quantifier and is not claimed. Snapshots compare public '
          'Attributes, never private bookkeeping.'),
+ 'C16': dict(
+    cat='model_checking', ref='DESIGN.md section 4 (C16)',
+    text='Dict-document family: _object_to_doc -> wire model -> _doc_to_object for a depth-3 class tree with the runtime class '
+         'chosen per declared slot (plain, customized variant, Array) and symbolic field values, polymorphic on and off, '
+         'JSON/YAML/MessagePack. XML family: the type marker computed by get_type_name_ns is resolved against the interface prefix '
+         'table and a stub element carrying it is deserialised by the real from_element (symbolic texts); '
+         'Interface.get_namespace_prefix is checked as one inductive step from an arbitrary bijective prefix table. Emitted XML '
+         'documents are checked concretely (lxml) for xsi:type resolution and field order.',
+    note='Element construction by lxml is concrete (one document per schedule). Subclasses in another namespace than their base '
+         'are outside (not registered for substitution by the interface).'),
+ 'C18': dict(
+    cat='model_checking', ref='DESIGN.md section 4 (C18)',
+    text='Differential harness: the real _FunctionCall.__call__/_cb_sync path and the real JsonDocument wire path '
+         '(deserialize -> process_request -> serialize) run on the same symbolic arguments for eleven signatures (wrapped 0..3 '
+         'args, none/one/two returns, out_bare, bare with a complex argument, generator, raised Fault, Ignored), positional and '
+         'keyword invocation; z3 proves equal delivered arguments and equal results.',
+    note='Wire side is JsonDocument in the symbolic part; XmlDocument/Soap11 need lxml and are not compared. Argument values: '
+         'integers -3..3, strings <= 2 chars, booleans.'),
 }
 
 NOT_APPLICABLE = {
